@@ -1,8 +1,8 @@
 """Which suites, theorems and extracted data decide which property."""
-from . import dhcpwire, pool, dhcp, acl, dnsrate, dnscache, dnsroute, dnswire
+from . import dhcpwire, pool, dhcp, acl, dnsrate, dnscache, dnsroute, dnswire, leasedb, radv
 
 SUITES = {}
-for cls in [dhcpwire.DhcpRoundTrip, dhcpwire.DhcpParse, dhcpwire.Frame, dhcpwire.BroadcastFlag, pool.PoolHistory, dhcp.DhcpHistory, acl.AclSuite, acl.LeaseJson, dnsrate.BucketSuite, dnsrate.RateLimitSuite, dnscache.CacheSuite, dnsroute.RouteSuite, dnswire.DnsEnc, dnswire.DnsDec, dnswire.InReply]:
+for cls in [dhcpwire.DhcpRoundTrip, dhcpwire.DhcpParse, dhcpwire.Frame, dhcpwire.BroadcastFlag, pool.PoolHistory, dhcp.DhcpHistory, acl.AclSuite, acl.LeaseJson, dnsrate.BucketSuite, dnsrate.RateLimitSuite, dnscache.CacheSuite, dnsroute.RouteSuite, dnswire.DnsEnc, dnswire.DnsDec, dnswire.InReply, leasedb.LeaseDb, radv.RaSuite]:
     SUITES[cls.name] = cls()
 
 TRUSTED_BASE = [
@@ -141,5 +141,28 @@ PROPS = {
         extracted=["dns.spliceRanges", "dns.transportLimits", "dns.prepareFloor"],
         rule=DNS_RULE, assumptions=["which limit each transport passes is tied by extraction of the call sites in run_udp / run_tcp (they need sockets to run)"],
         trusted=[],
+    ),
+    "C18": dict(
+        suites=[("leasedb", 600, 6000), ("pool", 1500, 40000)],
+        extracted=["pool.setupDbTransactional", "pool.structFields"],
+        rule="database files prepared with raw SQL in every start state (new, unversioned original schema, version 0, version 1, newer "
+             "versions) with 0..12 arbitrary lease rows, opened by the real Pool with and without a simulated crash right before the "
+             "schema_version bump (that statement is made to fail, then the file is reopened), newer versions compared byte for byte "
+             "before/after; plus the pool histories with close/reopen ops on on-disk databases || " + POOL_RULE,
+        assumptions=POOL_ASSUME + ["each SQLite statement / transaction is atomic and durable (SQLite's guarantee)",
+                                   "a crash is simulated by making the next statement fail; SIGKILL of a live process is not exercised in this suite"],
+        trusted=POOL_TRUST,
+    ),
+    "C17": dict(
+        suites=[("ra", 2500, 60000)],
+        extracted=[],
+        rule="router-advertisements YAML generated from the grammar (every interface field present/absent/null; lifetimes and timers at "
+             "and across every field boundary 0..2^33 s; 0..16 prefixes of every length with and without host bits; 0..8 DNS servers "
+             "incl. $self6; search domains with labels up to 64 octets; NAT64 prefixes of valid and invalid lengths with lifetimes "
+             "around 65528 s; URLs 0..240 octets; top-level defaults) loaded by the real loader, built by the private builder (hook), "
+             "serialised by icmppkt::serialise; the wire is compared with the model and decoded by a decoder written from RFC 4861/"
+             "8106/8781/8910 against the documented values (options compared as a multiset); non-trivial = carries at least one option",
+        assumptions=["the interface MTU / default-route decision made from netinfo in build_announcement is supplied by the harness"],
+        trusted=["ICMPv6 checksum is filled in by the kernel (raw socket), not by erbium"],
     ),
 }
